@@ -156,6 +156,42 @@ func genPlan(t *rapid.T) interface{} {
 	for i := 0; i < ns; i++ {
 		p.Stmts = append(p.Stmts, rapid.SampledFrom(tmpl).Draw(t, fmt.Sprintf("s%d", i)))
 	}
+	if rapid.IntRange(0, 7).Draw(t, "ragged") == 0 {
+		// A ragged layout as copies and node removals leave it, built so that
+		// fail-over takes several rounds: five nodes, the coordinator (node 1)
+		// owns nothing, two shards are on nodes {2,3}, three on {2,4,5}; node 2
+		// is down, node 4 answers with an error, nodes 3 and 5 are healthy.
+		// The shards first tried on node 2 are spread over fallback owners
+		// that have no node in common, one of which fails again.
+		p.Nodes, p.RF, p.Groups, p.Index, p.Coord = 5, 1, 1, "tsi1", 1
+		p.Edits = nil
+		for sh := 0; sh < 5; sh++ {
+			keep := []int{2, 3} // two shards on nodes 2 and 3
+			if sh >= 2 {
+				keep = []int{2, 4, 5} // three on nodes 2, 4 and 5: no fallback owner in common
+			}
+			for _, n := range keep {
+				p.Edits = append(p.Edits, ownerEdit{Kind: "copy", Shard: sh, Node: n})
+			}
+			for n := 1; n <= 5; n++ {
+				drop := true
+				for _, k := range keep {
+					drop = drop && k != n
+				}
+				if drop {
+					p.Edits = append(p.Edits, ownerEdit{Kind: "remove", Shard: sh, Node: n})
+				}
+			}
+		}
+		p.Faults = []fault{{Kind: "none"}, {Kind: "down"}, {Kind: "none"}, {Kind: "error-reply"}, {Kind: "none"}}
+		for i := range p.Points {
+			p.Points[i].T %= int64(time.Hour) // one shard group
+		}
+		p.Stmts = append([]string{"EXPLAIN SELECT f FROM m0", "SELECT count(f), sum(i) FROM m0", "EXPLAIN SELECT f FROM m0"}, p.Stmts...)
+		if len(p.Stmts) > 6 {
+			p.Stmts = p.Stmts[:6]
+		}
+	}
 	return p
 }
 
@@ -638,6 +674,18 @@ func exec(run *core.Run, pl interface{}) {
 			// with what is left, without an error.
 			run.Fail("silently-incomplete-or-wrong-result", "storage-read-owner-with-disabled-shards-answers-with-nothing", "storage ReadFilter on node %d returned success but differs from the same read over the union of the data; a node whose shards are disabled took part (faults: %s; owners: %s)\n got: %s\nwant: %s", p.Coord, describeFaults(p), describeOwners(data), clip(r.out), clip(want))
 			continue
+		}
+		// a cost estimate summed over more shards than hold the measurement has
+		// counted a shard twice: none of the recorded defects (which leave
+		// shards out) explains that
+		if strings.HasPrefix(stmt, "EXPLAIN") && !explainAny && r.out != want {
+			var g, w int
+			if _, e1 := fmt.Sscanf(r.out, "explain-ok shards=%d", &g); e1 == nil {
+				if _, e2 := fmt.Sscanf(want, "explain-ok shards=%d", &w); e2 == nil && g > w {
+					run.Fail("shard-counted-twice", "cost-estimate", "stmt %q on node %d: the estimate is summed over %d shards, %d shards hold the measurement (faults: %s; owners: %s)", stmt, p.Coord, g, w, describeFaults(p), describeOwners(data))
+					return
+				}
+			}
 		}
 		// an EXPLAIN of a statement plans it the same way and shares its defects
 		core := strings.TrimPrefix(stmt, "EXPLAIN ")
